@@ -70,6 +70,9 @@ func known() map[int]*ga.Type {
 	for _, t := range extraTypes(c) {
 		t.Decls(m)
 	}
+	for _, t := range append(append(ga.StringerShapesR5(), ga.PtrKeyTypesR5(c)...), ga.GoStringerShapesR5(c)...) {
+		t.Decls(m)
+	}
 	for _, fam := range ga.HAFamilies(c) {
 		for _, t := range fam {
 			t.Decls(m)
